@@ -144,3 +144,60 @@ contract(
     returns=Const(None),
     name="set_focus",
 )
+
+
+# ---------------------------------------------------------------- parse_lines over real PQR lines (layout logic)
+from pyvc.api import Bool, NameTok  # noqa: E402
+
+BIND["Atom"] = "pdb2pqr.structures:Atom"
+
+
+def PATOM(tag, **over):
+    f = dict(type=Const("ATOM"), serial=Int, name=NameTok(1, 4), res_name=NameTok(1, 4),
+             chain_id=Const("A"), res_seq=Int, ins_code=Const(""), x=Real, y=Real, z=Real, ffcharge=Real, radius=Real)
+    f.update(over)
+    return Named(tag, Obj("pdb2pqr.structures:Atom", **f))
+
+
+FITS = ("{a}.serial >= 0 and {a}.serial <= 99999 and {a}.res_seq >= -999 and {a}.res_seq <= 9999 and "
+        "len(fmt({a}.x, '.3f')) <= 8 and len(fmt({a}.y, '.3f')) <= 7 and len(fmt({a}.z, '.3f')) <= 7 and "
+        "len(fmt({a}.ffcharge, '.4f')) <= 7 and len(fmt({a}.radius, '.4f')) <= 6 and {a}.radius >= 0")
+
+
+def pv(x, spec):
+    """the value a formatted number reads back as"""
+    return float(fmt(x, spec))
+
+
+def lo(a, c):
+    return pv(c, '.3f') - pv(a.radius, '.4f')
+
+
+def hi(a, c):
+    return pv(c, '.3f') + pv(a.radius, '.4f')
+
+
+HEADER_LINES = ["REMARK   1 PQR file generated by PDB2PQR\n", "REMARK   5\n", "\n", "TER\n", "END"]
+
+
+@harness("C17",
+         params={"a": PATOM("a"), "b": PATOM("b", type=Const("HETATM")), "chainflag": Const(True)},
+         requires=[FITS.format(a="a"), FITS.format(a="b")],
+         ensures=[
+             # the bounding box is exactly the extent of the atom spheres, whatever their order and sign
+             "result.minlen[0] == min(lo(a, a.x), lo(b, b.x)) and result.maxlen[0] == max(hi(a, a.x), hi(b, b.x))",
+             "result.minlen[1] == min(lo(a, a.y), lo(b, b.y)) and result.maxlen[1] == max(hi(a, a.y), hi(b, b.y))",
+             "result.minlen[2] == min(lo(a, a.z), lo(b, b.z)) and result.maxlen[2] == max(hi(a, a.z), hi(b, b.z))",
+             "result.gotatom + result.gothet == 2",
+             "result.charge == pv(a.ffcharge, '.4f') + pv(b.ffcharge, '.4f')",
+         ],
+         name="parse_lines.two_atoms")
+def parse_two(a, b, chainflag):
+    size = Psize()
+    lines = ["REMARK   1 PQR file generated by PDB2PQR\n",
+             "REMARK   5 WARNING: PDB2PQR was unable to assign charges to the following atoms\n",
+             "REMARK   5    1 N   MET A   1      13.5 -2.25 100.0 1.0 2.0 (omitted below)\n",
+             a.get_pqr_string(chainflag=chainflag) + "\n",
+             "REMARK   5\n", b.get_pqr_string(chainflag=chainflag) + "\n", "TER\n", "END"]
+    size.parse_lines(lines)
+    return size
